@@ -148,13 +148,28 @@ impl Property for C04 {
         let mode = src.below(8);
         let h_a = src.below(1 << 16) as usize;
         let h_b = src.below(1 << 16) as usize;
-        let cfg = ConnectionConfig {
+        let mut cfg = ConnectionConfig {
             max_buffer_size: 512 * 1024 * 1024,
             read_buffer_size: *src.pick(&[8192usize, 1, 7, 16, 64]),
             min_pipeline_buffer: *src.pick(&[60usize, 0, 1, 14, 15, 70, 10_000]),
             batch_threshold: *src.pick(&[2usize, 1, 3, 6, 50]),
         };
-        let shards = *src.pick(&[1usize, 4]);
+        let mut shards = *src.pick(&[1usize, 4]);
+        // one run in six is configured the way the server binary configures itself: a PerformanceConfig read from
+        // one of the files shipped in the tree (or the built-in default), validated, then
+        // ShardedActorState::with_perf_config + ConnectionConfig::from_perf_config, as OptimizedRedisServer::run does
+        let shipped: Option<redis_sim::production::PerformanceConfig> = match src.below(18) {
+            0 => Some(redis_sim::production::PerformanceConfig::from_file(concat!(env!("VERIF_REPO_ROOT"), "/perf_config.toml"))),
+            1 => Some(redis_sim::production::PerformanceConfig::from_file(concat!(env!("VERIF_REPO_ROOT"), "/docker-benchmark/perf_config.toml"))),
+            2 => Some(redis_sim::production::PerformanceConfig::default()),
+            _ => None,
+        };
+        if let Some(pc) = &shipped {
+            rep.probe("configured_as_the_server_binary_does");
+            if let Err(e) = pc.validate() { rep.violate("C04/shipped-configuration-invalid", format!("a PerformanceConfig shipped in the tree does not pass its own validate(): {}", e)); rep.evals = 1; return rep; }
+            cfg = ConnectionConfig::from_perf_config(&pc.buffers, &pc.batching);
+            shards = pc.num_shards;
+        }
         let malformed = src.chance(1, 6);
         let cmds = gen_stream_cmds(src);
         if cmds.iter().any(|c| c.len() == 3 && c[2].len() >= 9000) { rep.probe("reply_backlog_over_64k"); }
@@ -220,8 +235,7 @@ impl Property for C04 {
         let _ = verif_hooks::probe::take();
         struct Out { a_out: Vec<u8>, b_out: Vec<u8>, a_idle_pending: usize, b_stuck: bool, dump_a: std::collections::BTreeMap<Vec<u8>, String>, dump_b: std::collections::BTreeMap<Vec<u8>, String>, steps: u64, a_closed: bool }
         let out: Out = rt::block_on(seed, async move {
-            let state_a = new_state(shards);
-            let state_b = new_state(shards);
+            let (state_a, state_b) = match &shipped { Some(pc) => (ShardedActorState::with_perf_config(pc), ShardedActorState::with_perf_config(pc)), None => (new_state(shards), new_state(shards)) };
             let sa = StreamHandle::new(); let sb = StreamHandle::new();
             sa.0.borrow_mut().max_write = short_writes;
             let pool = ConnectionPool::new(16, pool_size);
